@@ -90,6 +90,138 @@ Section MachineInv.
 End MachineInv.
 Arguments okk {S X} I k.
 
+Lemma okk_ext {S X} (I I' : X -> S -> Prop) k :
+  (forall x s, I x s <-> I' x s) -> okk I k -> okk I' k.
+Proof. intros E H x s Hs. apply E. apply H. apply E. exact Hs. Qed.
+
+(** * Plugins that run (part of) the chain on copies of the context
+
+    An invariant that is a condition on the context and a condition on the
+    plugin state survives fallback and dual_selector as soon as the context
+    part is insensitive to the identity of the response object, survives
+    adopting a response / a whole copy that satisfies it, and the state part
+    survives the counters. Proved once, instantiated five times below. *)
+Section CopyInv.
+  Variable X : Type.
+  Variable IC : X -> ctx -> Prop.
+  Variable IW : world -> Prop.
+  Definition Icw (x : X) (s : state) : Prop := IC x (fst s) /\ IW (snd s).
+
+  Hypothesis IC_rid : forall x c rid, IC x c ->
+    IC x (Ctx (c_query c) (c_client_opt c) (c_resp c) rid (c_resp_opt c) (c_upstream_opt c) (c_from_udp c) (c_client_addr c)).
+  Hypothesis IW_bump : forall w, IW w -> IW (bump w).
+
+  Lemma Icw_copy x s : Icw x s -> Icw x (ctx_copy s).
+  Proof. destruct s as [c w]. intros [H1 H2]. split; cbn; [apply IC_rid | apply IW_bump]; assumption. Qed.
+
+  (** fallback: SetResponse with the response of a copy *)
+  Hypothesis IC_adopt_resp : forall x c c' rid r, IC x c -> IC x c' -> c_resp c' = Some r -> IC x (set_response c rid r).
+
+  Lemma fallback_Icw runsub pr se sb :
+    (forall rs, okk Icw (runsub rs)) -> forall x s, Icw x s -> Icw x (fst (fallback_exec runsub pr se sb s)).
+  Proof.
+    intros Hsub x [c w] Hs. unfold fallback_exec.
+    pose proof (Hsub pr x _ (Icw_copy x _ Hs)) as Hp.
+    destruct (runsub pr (ctx_copy (c, w))) as [[tp [cp w1]] errp]. unfold ost in Hp. cbn [fst snd] in Hp.
+    destruct Hs as [Hc Hw]. destruct Hp as [Hcp Hw1]. cbn [fst snd] in *.
+    set (rp := match errp with
+               | Some _ => None
+               | None => match c_resp cp with Some r => Some (c_rid cp, r) | None => None end
+               end).
+    assert (Hrp : forall rid r, rp = Some (rid, r) -> c_resp cp = Some r).
+    { subst rp. intros rid r E. destruct errp; [discriminate|]. destruct (c_resp cp); inversion E. reflexivity. }
+    destruct (sb || match rp with Some _ => false | None => true end).
+    - pose proof (Hsub se x (ctx_copy (c, w1)) (Icw_copy x (c, w1) (conj Hc Hw1))) as Hq.
+      destruct (runsub se (ctx_copy (c, w1))) as [[ts [cs w2]] errs]. unfold ost in Hq. cbn [fst snd] in Hq.
+      destruct Hq as [Hcs Hw2].
+      set (rs := match errs with
+                 | Some _ => None
+                 | None => match c_resp cs with Some r => Some (c_rid cs, r) | None => None end
+                 end).
+      assert (Hrs : forall rid r, rs = Some (rid, r) -> c_resp cs = Some r).
+      { subst rs. intros rid r E. destruct errs; [discriminate|]. destruct (c_resp cs); inversion E. reflexivity. }
+      destruct rp as [[rid r]|].
+      + split; cbn; [|exact Hw2]. eapply IC_adopt_resp; [exact Hc | exact Hcp | eapply Hrp; reflexivity].
+      + destruct rs as [[rid r]|]; (split; cbn; [|exact Hw2]); [|exact Hc].
+        eapply IC_adopt_resp; [exact Hc | exact Hcs | eapply Hrs; reflexivity].
+    - destruct rp as [[rid r]|]; (split; cbn; [|exact Hw1]); [|exact Hc].
+      eapply IC_adopt_resp; [exact Hc | exact Hcp | eapply Hrp; reflexivity].
+  Qed.
+
+  (** dual_selector: the reference query runs under another index *)
+  Variable refx : X -> N -> X.
+  Hypothesis IC_ref : forall x c t, IC x c -> (t = type_a \/ t = type_aaaa) ->
+    IC (refx x t) (with_query c (set_q0_type (c_query c) t)).
+  Hypothesis IC_local : forall x c rid, IC x c -> IC x (set_response c rid (gen_empty_reply (c_query c))).
+  Hypothesis IC_adopt_ctx : forall x c co, IC x c -> IC x co -> IC x (with_query co (c_query c)).
+  Hypothesis IW_pref : forall w i n, IW w -> IW (add_pref w i n).
+
+  Lemma dual_Icw inst v6 k : okk Icw k -> okk Icw (dual_exec inst v6 k).
+  Proof.
+    intros Hk x [c w] Hs. unfold dual_exec.
+    destruct (m_question (c_query c)) as [|qu [|]]; try (apply Hk; exact Hs).
+    destruct (negb ((qtype qu =? type_a) || (qtype qu =? type_aaaa))); [apply Hk; exact Hs|].
+    destruct (qtype qu =? (if v6 then type_aaaa else type_a)).
+    - specialize (Hk x _ Hs). destruct (k (c, w)) as [[t [c2 w2]] err]. unfold ost in *. cbn [fst snd] in *.
+      destruct err; [exact Hk|]. destruct Hk as [H1 H2].
+      destruct (match c_resp c2 with Some r => msg_ans_has_rr r (if v6 then type_aaaa else type_a) | None => false end);
+        split; cbn; try assumption. apply IW_pref. exact H2.
+    - destruct Hs as [Hc Hw]. cbn [fst snd] in *.
+      destruct (existsb (name_eqb (qname qu)) (w_pref w inst)).
+      + unfold ost, set_fresh. cbn [fst snd]. split; cbn; [apply IC_local; exact Hc | apply IW_bump; exact Hw].
+      + pose proof (Icw_copy x (c, w) (conj Hc Hw)) as Hcp. cbv zeta.
+        destruct (ctx_copy (c, w)) as [cr0 wr0]. destruct Hcp as [Hc0 Hw0]. cbn [fst snd] in *.
+        assert (Hr : Icw (refx x (if v6 then type_aaaa else type_a))
+                         (with_query cr0 (set_q0_type (c_query cr0) (if v6 then type_aaaa else type_a)), wr0)).
+        { split; cbn [fst snd]; [|exact Hw0]. apply IC_ref; [exact Hc0|]. destruct v6; auto. }
+        pose proof (Hk _ _ Hr) as Hr'.
+        match goal with |- context [k (?c1, wr0)] => destruct (k (c1, wr0)) as [[t1 [cr w1]] errr] end.
+        unfold ost in Hr'. cbn [fst snd] in Hr'. destruct Hr' as [_ Hw1].
+        set (block := match errr with
+                      | Some _ => false
+                      | None => match c_resp cr with Some r => msg_ans_has_rr r (if v6 then type_aaaa else type_a) | None => false end
+                      end).
+        assert (Hw1' : IW (if block then add_pref w1 inst (qname qu) else w1)) by (destruct block; [apply IW_pref|]; exact Hw1).
+        set (w1' := if block then add_pref w1 inst (qname qu) else w1) in *.
+        pose proof (Hk x _ (Icw_copy x (c, w1') (conj Hc Hw1'))) as Ho.
+        destruct (k (ctx_copy (c, w1'))) as [[t2 [co w2]] erro]. unfold ost in *. cbn [fst snd] in *.
+        destruct Ho as [Hco Hw2]. destruct block.
+        * unfold set_fresh. split; cbn; [apply IC_local; exact Hc | apply IW_bump; exact Hw2].
+        * split; cbn; [apply IC_adopt_ctx; assumption | exact Hw2].
+  Qed.
+End CopyInv.
+Arguments Icw {X} IC IW x s.
+
+(** * From the plugins to every program at every nesting depth *)
+Section EnvInv.
+  Variable ups : N -> msg -> option msg.
+  Variable clock : N -> option N.
+  Variable xp : N -> xplugin.
+  Variable wp : N -> wplugin.
+  Variable mp : N -> matcher.
+  Variable X : Type.
+  Variable I : X -> state -> Prop.
+  Hypothesis Hx : forall runsub, (forall rs, okk I (runsub rs)) ->
+    forall p x s, I x s -> I x (fst (exec_x ups runsub p s)).
+  Hypothesis Hr : forall rc x s, I x s -> I x (reject_x rc s).
+  Hypothesis Hw : forall w k, okk I k -> okk I (wrap_w clock (wp w) k).
+
+  Lemma plug_env_ok d : forall prog, okk I (run_seq (plug_env ups clock xp wp mp d) prog).
+  Proof.
+    induction d as [|d IH]; intros prog x s H; cbn [plug_env]; unfold env_with.
+    - apply (run_seq_ok state _ X I); try assumption.
+      intros e x0 s0 H0. cbn [exec_o]. apply Hx; [|exact H0]. intros rs x1 s1 H1. exact H1.
+    - apply (run_seq_ok state _ X I); try assumption.
+      intros e x0 s0 H0. cbn [exec_o]. apply Hx; [|exact H0]. intros rs. apply IH.
+  Qed.
+
+  Lemma entry_ok d prog x s : I x s -> I x (fst (entry ups clock xp wp mp d prog s)).
+  Proof.
+    intro H. unfold entry. pose proof (plug_env_ok d prog x s H) as R.
+    destruct (run_seq (plug_env ups clock xp wp mp d) prog s) as [[t s'] err]. exact R.
+  Qed.
+End EnvInv.
+
 (** * Decidable equalities decide equality *)
 Lemma name_eqb_true a b : name_eqb a b = true -> a = b.
 Proof. apply CacheKey.eqb_bytes_iff. Qed.
@@ -302,6 +434,9 @@ Proof. unfold set_response. destruct (pop_opt (m_extra m)) as [[ex o]|]; cbn; re
 Lemma set_q0_name_extra q n : m_extra (set_q0_name q n) = m_extra q.
 Proof. unfold set_q0_name. destruct (m_question q); reflexivity. Qed.
 
+Lemma set_q0_type_extra q t : m_extra (set_q0_type q t) = m_extra q.
+Proof. unfold set_q0_type. destruct (m_question q); reflexivity. Qed.
+
 Definition client_opts (co : option opt) : list eopt :=
   match co with Some o => o_opts o | None => [] end.
 
@@ -368,9 +503,48 @@ Section UpstreamSide.
       destruct (set_response_fields c (w_next w) r) as (E1 & E2 & E3 & _); congruence.
   Qed.
 
-  Lemma exec_x_invU p x s : invU x s -> invU x (fst (exec_x ups p s)).
+  (** context part / state part *)
+  Definition ICU (_ : unit) (c : ctx) : Prop :=
+    c_client_opt c = co /\ c_client_addr c = ca /\ one_fresh (c_query c).
+  Definition IWU (w : world) : Prop := Forall (fun x => one_fresh (snd x)) (w_log w).
+  Lemma invU_iff x s : invU x s <-> Icw ICU IWU x s.
+  Proof. unfold invU, Icw, ICU, IWU. tauto. Qed.
+
+  Lemma ICU_set_response x c rid m : ICU x c -> ICU x (set_response c rid m).
   Proof.
-    intro H. destruct s as [c w]. destruct p; cbn [exec_x].
+    unfold ICU. destruct (set_response_fields c rid m) as (E1 & E2 & E3 & _). rewrite E1, E2, E3. auto.
+  Qed.
+
+  Lemma fallback_invU runsub pr se sb :
+    (forall rs, okk invU (runsub rs)) -> forall x s, invU x s -> invU x (fst (fallback_exec runsub pr se sb s)).
+  Proof.
+    intros Hsub x s H. apply invU_iff.
+    refine (fallback_Icw unit ICU IWU _ _ _ runsub pr se sb _ x s _).
+    - intros x0 c rid Hc. exact Hc.
+    - intros w Hw. exact Hw.
+    - intros x0 c c' rid r Hc _ _. apply ICU_set_response. exact Hc.
+    - intro rs. apply (okk_ext invU); [apply invU_iff | apply Hsub].
+    - apply invU_iff. exact H.
+  Qed.
+
+  Lemma dual_invU inst v6 k : okk invU k -> okk invU (dual_exec inst v6 k).
+  Proof.
+    intro Hk. apply (okk_ext (Icw ICU IWU)); [intros; symmetry; apply invU_iff|].
+    refine (dual_Icw unit ICU IWU _ _ (fun x _ => x) _ _ _ _ inst v6 k _).
+    - intros x0 c rid Hc. exact Hc.
+    - intros w Hw. exact Hw.
+    - intros x0 c t (H1 & H2 & H3) _. repeat split; try assumption. unfold one_fresh in *. cbn.
+      rewrite set_q0_type_extra. exact H3.
+    - intros x0 c rid Hc. apply ICU_set_response. exact Hc.
+    - intros x0 c c' (H1 & H2 & H3) (G1 & G2 & G3). repeat split; assumption.
+    - intros w i n Hw. exact Hw.
+    - apply (okk_ext invU); [apply invU_iff | exact Hk].
+  Qed.
+
+  Lemma exec_x_invU runsub p x s :
+    (forall rs, okk invU (runsub rs)) -> invU x s -> invU x (fst (exec_x ups runsub p s)).
+  Proof.
+    intros Hsub H. destruct s as [c w]. destruct p; cbn [exec_x]; [| | | | | |apply fallback_invU; assumption].
     - unfold set_opt. destruct (hosts_reply h (c_query c)); cbn [fst]; [apply set_fresh_invU|]; exact H.
     - unfold set_opt. destruct (black_hole_reply v4 v6 (c_query c)); cbn [fst]; [apply set_fresh_invU|]; exact H.
     - unfold set_opt. destruct (arbitrary_reply z (c_query c)); cbn [fst]; [apply set_fresh_invU|]; exact H.
@@ -514,14 +688,15 @@ Section UpstreamSide.
     - apply redirect_invU; exact Hk.
     - eapply ecs_invU; eassumption.
     - eapply fwdopt_invU; eassumption.
+    - apply dual_invU; exact Hk.
   Qed.
 
-  Lemma entry_invU prog s : invU tt s -> invU tt (fst (entry ups clock xp wp mp prog s)).
+  Lemma entry_invU d prog s : invU tt s -> invU tt (fst (entry ups clock xp wp mp d prog s)).
   Proof.
-    intro H. unfold entry.
-    pose proof (run_seq_ok state (plug_env ups clock xp wp mp) unit invU
-                  (fun e => exec_x_invU (xp e)) reject_x_invU (fun w => wrap_w_invU w) prog tt s H) as R.
-    destruct (run_seq (plug_env ups clock xp wp mp) prog s) as [[t s'] err]. exact R.
+    apply (entry_ok ups clock xp wp mp unit invU).
+    - intros runsub Hsub p x s0. apply exec_x_invU. exact Hsub.
+    - exact reject_x_invU.
+    - exact wrap_w_invU.
   Qed.
 End UpstreamSide.
 
@@ -548,19 +723,40 @@ Section StoreSide.
   Lemma set_fresh_store s r : w_store (snd (set_fresh s r)) = w_store (snd s).
   Proof. destruct s as [c w]. reflexivity. Qed.
 
-  Lemma exec_x_store p s : w_store (snd (fst (exec_x ups p s))) = w_store (snd s).
+  Lemma invS_iff x s : invS x s <-> Icw (fun (_ : unit) (_ : ctx) => True) stores_no_opt x s.
+  Proof. unfold invS, Icw. tauto. Qed.
+
+  Lemma fallback_invS runsub pr se sb :
+    (forall rs, okk invS (runsub rs)) -> forall x s, invS x s -> invS x (fst (fallback_exec runsub pr se sb s)).
   Proof.
-    destruct s as [c w]. destruct p; cbn [exec_x]; unfold set_opt.
-    - destruct (hosts_reply h (c_query c)); reflexivity.
-    - destruct (black_hole_reply v4 v6 (c_query c)); reflexivity.
-    - destruct (arbitrary_reply z (c_query c)); reflexivity.
-    - destruct (c_resp c); reflexivity.
-    - destruct (ups u (wire (c_query c))); reflexivity.
-    - reflexivity.
+    intros Hsub x s H. apply invS_iff.
+    refine (fallback_Icw unit _ stores_no_opt _ _ _ runsub pr se sb _ x s _); try (intros; exact I).
+    - intros w Hw. exact Hw.
+    - intro rs. apply (okk_ext invS); [apply invS_iff | apply Hsub].
+    - apply invS_iff. exact H.
   Qed.
 
-  Lemma exec_x_invS p x s : invS x s -> invS x (fst (exec_x ups p s)).
-  Proof. unfold invS, stores_no_opt. rewrite exec_x_store. auto. Qed.
+  Lemma dual_invS inst v6 k : okk invS k -> okk invS (dual_exec inst v6 k).
+  Proof.
+    intro Hk. apply (okk_ext (Icw (fun (_ : unit) (_ : ctx) => True) stores_no_opt)); [intros; symmetry; apply invS_iff|].
+    refine (dual_Icw unit _ stores_no_opt _ _ (fun x _ => x) _ _ _ _ inst v6 k _); try (intros; exact I).
+    - intros w Hw. exact Hw.
+    - intros w i n Hw. exact Hw.
+    - apply (okk_ext invS); [apply invS_iff | exact Hk].
+  Qed.
+
+  Lemma exec_x_invS runsub p x s :
+    (forall rs, okk invS (runsub rs)) -> invS x s -> invS x (fst (exec_x ups runsub p s)).
+  Proof.
+    intros Hsub H. destruct s as [c w]. destruct p; cbn [exec_x]; unfold set_opt;
+      [| | | | | |apply fallback_invS; assumption].
+    - destruct (hosts_reply h (c_query c)); exact H.
+    - destruct (black_hole_reply v4 v6 (c_query c)); exact H.
+    - destruct (arbitrary_reply z (c_query c)); exact H.
+    - destruct (c_resp c); exact H.
+    - destruct (ups u (wire (c_query c))); exact H.
+    - exact H.
+  Qed.
 
   Lemma reject_x_invS rc x s : invS x s -> invS x (reject_x rc s).
   Proof. unfold invS, stores_no_opt, reject_x. rewrite set_fresh_store. auto. Qed.
@@ -590,14 +786,15 @@ Section StoreSide.
       unfold ost in *. cbn [fst snd] in *.
       destruct err; [exact Hk|]. destruct (c_upstream_opt c2) as [uo|]; [|exact Hk].
       destruct (c_resp_opt c2); exact Hk.
+    - apply dual_invS; [exact Hk | exact Hs].
   Qed.
 
-  Lemma entry_invS prog s : stores_no_opt (snd s) -> stores_no_opt (snd (fst (entry ups clock xp wp mp prog s))).
+  Lemma entry_invS d prog s : stores_no_opt (snd s) -> stores_no_opt (snd (fst (entry ups clock xp wp mp d prog s))).
   Proof.
-    intro H. unfold entry.
-    pose proof (run_seq_ok state (plug_env ups clock xp wp mp) unit invS
-                  (fun e => exec_x_invS (xp e)) reject_x_invS (fun w => wrap_w_invS w) prog tt s H) as R.
-    destruct (run_seq (plug_env ups clock xp wp mp) prog s) as [[t s'] err]. exact R.
+    apply (entry_ok ups clock xp wp mp unit invS) with (x := tt).
+    - intros runsub Hsub p x s0. apply exec_x_invS. exact Hsub.
+    - exact reject_x_invS.
+    - exact wrap_w_invS.
   Qed.
 End StoreSide.
 
@@ -693,9 +890,64 @@ Section ClientSide.
     - reflexivity.
   Qed.
 
-  Lemma exec_x_invD p x s : invD x s -> invD x (fst (exec_x ups p s)).
+  (** context part / state part *)
+  Definition ICD (_ : unit) (c : ctx) : Prop :=
+    c_client_opt c = co /\ resp_opt_ok (c_resp_opt c)
+    /\ (forall uo, c_upstream_opt c = Some uo -> Forall from_upstream (o_opts uo))
+    /\ (forall r, c_resp c = Some r -> opts_of (m_extra r) = []).
+  Lemma invD_iff x s : invD x s <-> Icw ICD stores_no_opt x s.
+  Proof. unfold invD, Icw, ICD. tauto. Qed.
+
+  Lemma empty_no_opt : stores_no_opt empty_world.
+  Proof. intros i k v []. Qed.
+
+  Lemma ICD_set_response x c rid m :
+    (count_opt (m_extra m) <= 1)%nat ->
+    (forall o, find_opt (m_extra m) = Some o -> Forall from_upstream (o_opts o)) ->
+    ICD x c -> ICD x (set_response c rid m).
   Proof.
-    intro H. destruct s as [c w]. destruct p; cbn [exec_x].
+    intros H1 H2 Hc.
+    assert (H : invD x (c, empty_world)) by (apply invD_iff; split; [exact Hc | exact empty_no_opt]).
+    apply (set_response_invD c empty_world empty_world rid m x H1 H2 eq_refl) in H.
+    apply invD_iff in H. exact (proj1 H).
+  Qed.
+
+  Lemma ICD_adopt x c c' rid r : ICD x c -> ICD x c' -> c_resp c' = Some r -> ICD x (set_response c rid r).
+  Proof.
+    intros Hc (_ & _ & _ & H4) Hr. specialize (H4 r Hr). apply ICD_set_response; [| |exact Hc].
+    - unfold count_opt. rewrite H4. cbn. lia.
+    - intros o Ho. apply find_opt_in in Ho. rewrite H4 in Ho. destruct Ho.
+  Qed.
+
+  Lemma fallback_invD runsub pr se sb :
+    (forall rs, okk invD (runsub rs)) -> forall x s, invD x s -> invD x (fst (fallback_exec runsub pr se sb s)).
+  Proof.
+    intros Hsub x s H. apply invD_iff.
+    refine (fallback_Icw unit ICD stores_no_opt _ _ _ runsub pr se sb _ x s _).
+    - intros x0 c rid Hc. exact Hc.
+    - intros w Hw. exact Hw.
+    - exact ICD_adopt.
+    - intro rs. apply (okk_ext invD); [apply invD_iff | apply Hsub].
+    - apply invD_iff. exact H.
+  Qed.
+
+  Lemma dual_invD inst v6 k : okk invD k -> okk invD (dual_exec inst v6 k).
+  Proof.
+    intro Hk. apply (okk_ext (Icw ICD stores_no_opt)); [intros; symmetry; apply invD_iff|].
+    refine (dual_Icw unit ICD stores_no_opt _ _ (fun x _ => x) _ _ _ _ inst v6 k _).
+    - intros x0 c rid Hc. exact Hc.
+    - intros w Hw. exact Hw.
+    - intros x0 c t Hc _. exact Hc.
+    - intros x0 c rid Hc. apply ICD_set_response; [cbn; lia | cbn; discriminate | exact Hc].
+    - intros x0 c c' _ Hc'. exact Hc'.
+    - intros w i n Hw. exact Hw.
+    - apply (okk_ext invD); [apply invD_iff | exact Hk].
+  Qed.
+
+  Lemma exec_x_invD runsub p x s :
+    (forall rs, okk invD (runsub rs)) -> invD x s -> invD x (fst (exec_x ups runsub p s)).
+  Proof.
+    intros Hsub H. destruct s as [c w]. destruct p; cbn [exec_x]; [| | | | | |apply fallback_invD; assumption].
     - unfold set_opt. destruct (hosts_reply h (c_query c)) eqn:E; cbn [fst]; [|exact H].
       apply set_fresh_local_invD; [eapply hosts_reply_extra; exact E | exact H].
     - unfold set_opt. destruct (black_hole_reply v4 v6 (c_query c)) eqn:E; cbn [fst]; [|exact H].
@@ -848,14 +1100,15 @@ Section ClientSide.
     - apply redirect_invD; exact Hk.
     - eapply ecs_invD; eassumption.
     - eapply fwdopt_invD; eassumption.
+    - apply dual_invD; exact Hk.
   Qed.
 
-  Lemma entry_invD prog s : invD tt s -> invD tt (fst (entry ups clock xp wp mp prog s)).
+  Lemma entry_invD d prog s : invD tt s -> invD tt (fst (entry ups clock xp wp mp d prog s)).
   Proof.
-    intro H. unfold entry.
-    pose proof (run_seq_ok state (plug_env ups clock xp wp mp) unit invD
-                  (fun e => exec_x_invD (xp e)) reject_x_invD (fun w => wrap_w_invD w) prog tt s H) as R.
-    destruct (run_seq (plug_env ups clock xp wp mp) prog s) as [[t s'] err]. exact R.
+    apply (entry_ok ups clock xp wp mp unit invD).
+    - intros runsub Hsub p x s0. apply exec_x_invD. exact Hsub.
+    - exact reject_x_invD.
+    - exact wrap_w_invD.
   Qed.
 End ClientSide.
 
@@ -1032,8 +1285,9 @@ Section C15.
   Variable mp : N -> matcher.
   Variable truncate : N -> msg -> msg.
   Variable packs : msg -> bool.
+  Variable depth : nat.             (* nesting bound of fallback sub-sequences *)
 
-  Notation run prog := (handle truncate packs (entry ups clock xp wp mp prog)).
+  Notation run prog := (handle truncate packs (entry ups clock xp wp mp depth prog)).
 
   (** Everything handed to an upstream while a query is handled carries
       exactly one OPT, and it is a fresh one. *)
@@ -1046,8 +1300,8 @@ Section C15.
     intros Hl u m Hin. unfold handle in Hin. destruct (valid_query q) eqn:Hv.
     - assert (H0 : invU wp (find_opt (m_extra q)) ca tt (new_context q udp ca, w)).
       { apply new_context_invU; [exact Hv | rewrite Hl; constructor]. }
-      pose proof (entry_invU ups clock xp wp mp _ _ prog _ H0) as H1.
-      destruct (entry ups clock xp wp mp prog (new_context q udp ca, w)) as [[c w'] err].
+      pose proof (entry_invU ups clock xp wp mp _ _ depth prog _ H0) as H1.
+      destruct (entry ups clock xp wp mp depth prog (new_context q udp ca, w)) as [[c w'] err].
       cbn [fst snd] in *. destruct H1 as (_ & _ & _ & H4). rewrite Forall_forall in H4.
       destruct (H4 _ Hin) as (o & Ho & F1 & F2 & F3 & F4). exists o. repeat split; try assumption.
       rewrite Forall_forall in F4. exact F4.
@@ -1059,8 +1313,8 @@ Section C15.
     stores_no_opt w -> stores_no_opt (fst (run prog w q udp ca)).
   Proof.
     intro H. unfold handle. destruct (valid_query q); [|exact H].
-    pose proof (entry_invS ups clock xp wp mp prog (new_context q udp ca, w) H) as H1.
-    destruct (entry ups clock xp wp mp prog (new_context q udp ca, w)) as [[c w'] err]. exact H1.
+    pose proof (entry_invS ups clock xp wp mp depth prog (new_context q udp ca, w) H) as H1.
+    destruct (entry ups clock xp wp mp depth prog (new_context q udp ca, w)) as [[c w'] err]. exact H1.
   Qed.
 
   Hypothesis up_ok : forall u q r, ups u q = Some r -> (count_opt (m_extra r) <= 1)%nat.
@@ -1079,8 +1333,8 @@ Section C15.
     end.
   Proof.
     intros Hs Hr. unfold handle in Hr. destruct (valid_query q) eqn:Hv; [|discriminate].
-    pose proof (entry_invD ups clock xp wp mp _ up_ok prog _ (new_context_invD ups wp q udp ca w Hs)) as H1.
-    destruct (entry ups clock xp wp mp prog (new_context q udp ca, w)) as [[c w1] err].
+    pose proof (entry_invD ups clock xp wp mp _ up_ok depth prog _ (new_context_invD ups wp q udp ca w Hs)) as H1.
+    destruct (entry ups clock xp wp mp depth prog (new_context q udp ca, w)) as [[c w1] err].
     destruct (packs (reply_msg truncate c err)); [|discriminate]. inversion Hr; subst w' r. clear Hr.
     destruct H1 as (_ & H2 & _ & H4 & _). cbn [fst snd] in *.
     rewrite (reply_msg_opts truncate trunc_contract c err H4).
@@ -1099,15 +1353,16 @@ Section C15Corollaries.
   Variable mp : N -> matcher.
   Variable truncate : N -> msg -> msg.
   Variable packs : msg -> bool.
+  Variable depth : nat.             (* nesting bound of fallback sub-sequences *)
   Hypothesis up_ok : forall u q r, ups u q = Some r -> (count_opt (m_extra r) <= 1)%nat.
   Hypothesis trunc_contract : forall size m, trunc_rel m (truncate size m) = true.
-  Notation run prog := (handle truncate packs (entry ups clock xp wp mp prog)).
+  Notation run prog := (handle truncate packs (entry ups clock xp wp mp depth prog)).
 
   Lemma reply_opt_iff_client_opt prog w q udp ca w' r :
     stores_no_opt w -> run prog w q udp ca = (w', Some r) ->
     count_opt (m_extra r) = match find_opt (m_extra q) with Some _ => 1%nat | None => 0%nat end.
   Proof.
-    intros Hs Hr. pose proof (reply_opt_shape ups clock xp wp mp truncate packs up_ok trunc_contract _ _ _ _ _ _ _ Hs Hr) as H.
+    intros Hs Hr. pose proof (reply_opt_shape ups clock xp wp mp truncate packs depth up_ok trunc_contract _ _ _ _ _ _ _ Hs Hr) as H.
     unfold count_opt. destruct (find_opt (m_extra q)).
     - destruct H as (ro & -> & _). reflexivity.
     - rewrite H. reflexivity.
@@ -1118,7 +1373,7 @@ Section C15Corollaries.
     find_opt (m_extra q) = Some co -> In ro (opts_of (m_extra r)) ->
     o_do ro = o_do co /\ o_udp ro = edns0_size /\ o_ver ro = 0.
   Proof.
-    intros Hs Hr Hc Hin. pose proof (reply_opt_shape ups clock xp wp mp truncate packs up_ok trunc_contract _ _ _ _ _ _ _ Hs Hr) as H.
+    intros Hs Hr Hc Hin. pose proof (reply_opt_shape ups clock xp wp mp truncate packs depth up_ok trunc_contract _ _ _ _ _ _ _ Hs Hr) as H.
     rewrite Hc in H. destruct H as (ro' & E & F1 & F2 & F3 & _). rewrite E in Hin.
     destruct Hin as [<-|[]]. auto.
   Qed.
@@ -1128,7 +1383,7 @@ Section C15Corollaries.
     In ro (opts_of (m_extra r)) -> In e (o_opts ro) ->
     allowed_down ups wp e.
   Proof.
-    intros Hs Hr Hin He. pose proof (reply_opt_shape ups clock xp wp mp truncate packs up_ok trunc_contract _ _ _ _ _ _ _ Hs Hr) as H.
+    intros Hs Hr Hin He. pose proof (reply_opt_shape ups clock xp wp mp truncate packs depth up_ok trunc_contract _ _ _ _ _ _ _ Hs Hr) as H.
     destruct (find_opt (m_extra q)).
     - destruct H as (ro' & E & _ & _ & _ & F). rewrite E in Hin. destruct Hin as [<-|[]].
       rewrite Forall_forall in F. apply F. exact He.
@@ -1138,11 +1393,11 @@ Section C15Corollaries.
   (** What the chain leaves in R() never holds an OPT in its additional section. *)
   Lemma response_has_no_opt prog w q udp ca c w' err r :
     stores_no_opt w ->
-    entry ups clock xp wp mp prog (new_context q udp ca, w) = ((c, w'), err) ->
+    entry ups clock xp wp mp depth prog (new_context q udp ca, w) = ((c, w'), err) ->
     c_resp c = Some r -> opts_of (m_extra r) = [].
   Proof.
     intros Hs He Hr.
-    pose proof (entry_invD ups clock xp wp mp _ up_ok prog _ (new_context_invD ups wp q udp ca w Hs)) as H1.
+    pose proof (entry_invD ups clock xp wp mp _ up_ok depth prog _ (new_context_invD ups wp q udp ca w Hs)) as H1.
     rewrite He in H1. destruct H1 as (_ & _ & _ & H4 & _). apply H4. exact Hr.
   Qed.
 End C15Corollaries.
@@ -1190,14 +1445,14 @@ Proof.
 Qed.
 
 (** Without a forwarding plugin no option is ever put into the query OPT. *)
-Lemma upstream_no_options_without_plugin ups clock xp wp mp truncate packs prog w q udp ca :
+Lemma upstream_no_options_without_plugin ups clock xp wp mp truncate packs depth prog w q udp ca :
   (forall i, match wp i with WCache _ | WRedirect _ => True | _ => False end) ->
   w_log w = [] ->
-  forall u m, In (u, m) (w_log (fst (handle truncate packs (entry ups clock xp wp mp prog) w q udp ca))) ->
+  forall u m, In (u, m) (w_log (fst (handle truncate packs (entry ups clock xp wp mp depth prog) w q udp ca))) ->
   exists o, opts_of (m_extra m) = [o] /\ o_opts o = [].
 Proof.
   intros Hn Hl u m Hin.
-  destruct (upstream_query_one_fresh_opt ups clock xp wp mp truncate packs prog w q udp ca Hl u m Hin)
+  destruct (upstream_query_one_fresh_opt ups clock xp wp mp truncate packs depth prog w q udp ca Hl u m Hin)
     as (o & Ho & _ & _ & _ & Ha).
   exists o. split; [exact Ho|]. destruct (o_opts o) as [|e l]; [reflexivity|]. exfalso.
   destruct (Ha e (or_introl eq_refl)) as [(i & codes & Hi & _) | (i & f & s & p & a & b & Hi & _)];
@@ -1276,16 +1531,21 @@ Definition is_some {A} (o : option A) : bool := match o with Some _ => true | No
 
 Ltac split5 := refine (conj _ (conj _ (conj _ (conj _ _)))).
 
+(** index of the C03 invariant: the current query name, the names below it on
+    the stack of enclosing redirects, the current query type, and whether the
+    response is held to the client's id and question (it is not inside the
+    reference query of dual_selector, whose result is thrown away) *)
+Record idx := Idx { x_name : bytes; x_below : list bytes; x_ty : N; x_strict : bool }.
+
 Section C03Inv.
   Variable ups : N -> msg -> option msg.
   Variable clock : N -> option N.
   Variable xp : N -> xplugin.
   Variable wp : N -> wplugin.
   Variable mp : N -> matcher.
-  (** the client's id, question type and class, and whether it sent an OPT *)
-  Variable id0 ty0 cl0 : N.
+  (** the client's id and question class, and whether it sent an OPT *)
+  Variable id0 cl0 : N.
   Variable ho : bool.
-  Hypothesis Hty : ty0 < 65536.
   Hypothesis Hcl : cl0 < 65536.
 
   (** The upstreams echo the question: a reply has QR set and the id and
@@ -1293,49 +1553,97 @@ Section C03Inv.
   Hypothesis ups_echo : forall u q r, ups u q = Some r ->
     m_id r = m_id q /\ m_question r = m_question q /\ m_qr r = true.
 
-  (** A response in the context: the client's id, QR, and the client's
-      question up to the name, which is one of the names on the stack of
-      enclosing redirects. *)
-  Definition resp_ok (names : list bytes) (r : msg) : Prop :=
-    m_id r = id0 /\ m_qr r = true /\ exists n, m_question r = [mkqu n ty0 cl0] /\ In n names.
+  (** A response in the context: QR, the client's id, and the current
+      question up to the name, which is one of the names on the stack. *)
+  Definition resp_ok (x : idx) (r : msg) : Prop :=
+    m_qr r = true
+    /\ (x_strict x = true ->
+        m_id r = id0 /\ exists n, m_question r = [mkqu n (x_ty x) cl0] /\ In n (x_name x :: x_below x)).
 
   (** Every cache entry answers the question its key was built from. *)
   Definition store_ok (w : world) : Prop :=
     forall i k v, In (k, v) (w_store w i) ->
       m_qr v = true /\ exists a c d qu, k = CacheKey.key_of a c d qu /\ m_question v = [qu] /\ CacheKey.wf_question qu.
 
-  (** index: the current query name and the names below it on the stack *)
-  Definition inv03 (x : bytes * list bytes) (s : state) : Prop :=
-    m_id (c_query (fst s)) = id0 /\ m_question (c_query (fst s)) = [mkqu (fst x) ty0 cl0]
-    /\ (forall r, c_resp (fst s) = Some r -> resp_ok (fst x :: snd x) r)
-    /\ is_some (c_resp_opt (fst s)) = ho
-    /\ store_ok (snd s).
+  Definition IC03 (x : idx) (c : ctx) : Prop :=
+    m_id (c_query c) = id0 /\ m_question (c_query c) = [mkqu (x_name x) (x_ty x) cl0] /\ x_ty x < 65536
+    /\ (forall r, c_resp c = Some r -> resp_ok x r)
+    /\ is_some (c_resp_opt c) = ho.
+
+  Definition inv03 : idx -> state -> Prop := Icw IC03 store_ok.
 
   Lemma inv03_frame s s' :
     m_id (c_query (fst s')) = m_id (c_query (fst s)) -> m_question (c_query (fst s')) = m_question (c_query (fst s)) ->
     c_resp (fst s') = c_resp (fst s) -> c_resp_opt (fst s') = c_resp_opt (fst s) -> w_store (snd s') = w_store (snd s) ->
     forall x, inv03 x s -> inv03 x s'.
   Proof.
-    intros E1 E2 E3 E4 E5 x (H1 & H2 & H3 & H4 & H5). unfold inv03, store_ok in *.
-    rewrite E1, E2, E3, E4, E5. auto.
+    intros E1 E2 E3 E4 E5 x ((H1 & H2 & Ht & H3 & H4) & H5). unfold inv03, Icw, IC03, store_ok in *.
+    rewrite E1, E2, E3, E4, E5. split; [split5; assumption | exact H5].
   Qed.
 
-  (** SetResponse with a message that has the query's id and question *)
+  (** a response with the query's id and question *)
+  Lemma resp_ok_query x c m :
+    IC03 x c -> m_id m = m_id (c_query c) -> m_qr m = true -> m_question m = firstn 1 (m_question (c_query c)) ->
+    resp_ok x m.
+  Proof.
+    intros (H1 & H2 & _) E1 E2 E3. split; [exact E2|]. intros _. split; [congruence|].
+    exists (x_name x). split; [|now left]. rewrite E3, H2. reflexivity.
+  Qed.
+
+  Lemma resp_ok_hdr x r r' : m_id r' = m_id r -> m_qr r' = m_qr r -> m_question r' = m_question r -> resp_ok x r -> resp_ok x r'.
+  Proof. unfold resp_ok. intros -> -> ->. auto. Qed.
+
+  (** SetResponse *)
+  Lemma IC03_set_response x c rid m : resp_ok x m -> IC03 x c -> IC03 x (set_response c rid m).
+  Proof.
+    intros Hm (H1 & H2 & Ht & H3 & H4).
+    destruct (set_response_fields c rid m) as (F1 & _ & _ & F4 & _).
+    unfold IC03. rewrite F1, F4. split5; try assumption.
+    intros r H. destruct (set_response_resp _ _ _ _ H) as (G1 & G2 & G3 & _).
+    revert Hm. apply resp_ok_hdr; assumption.
+  Qed.
+
   Lemma set_fresh_inv03 s m x :
     m_id m = m_id (c_query (fst s)) -> m_qr m = true -> m_question m = firstn 1 (m_question (c_query (fst s))) ->
     inv03 x s -> inv03 x (set_fresh s m).
   Proof.
-    destruct s as [c w]. intros E1 E2 E3 (H1 & H2 & H3 & H4 & H5). unfold set_fresh.
-    destruct (set_response_fields c (w_next w) m) as (F1 & _ & _ & F4 & _).
-    unfold inv03. cbn [fst snd] in *. rewrite F1, F4. split5; try assumption.
-    intros r H. destruct (set_response_resp _ _ _ _ H) as (G1 & G2 & G3 & _).
-    split; [congruence|]. split; [congruence|]. exists (fst x). split; [|now left].
-    rewrite G3, E3, H2. reflexivity.
+    destruct s as [c w]. intros E1 E2 E3 (Hc & Hw). unfold set_fresh. split; cbn [fst snd]; [|exact Hw].
+    apply IC03_set_response; [|exact Hc]. eapply resp_ok_query; eassumption.
   Qed.
 
-  Lemma exec_x_inv03 p x s : inv03 x s -> inv03 x (fst (exec_x ups p s)).
+  Lemma IC03_rid x c rid : IC03 x c ->
+    IC03 x (Ctx (c_query c) (c_client_opt c) (c_resp c) rid (c_resp_opt c) (c_upstream_opt c) (c_from_udp c) (c_client_addr c)).
+  Proof. intro H. exact H. Qed.
+
+  Lemma fallback_inv03 runsub pr se sb :
+    (forall rs, okk inv03 (runsub rs)) -> forall x s, inv03 x s -> inv03 x (fst (fallback_exec runsub pr se sb s)).
   Proof.
-    intro H. destruct s as [c w]. destruct p; cbn [exec_x].
+    intros Hsub x s H.
+    refine (fallback_Icw idx IC03 store_ok IC03_rid _ _ runsub pr se sb Hsub x s H).
+    - intros w Hw. exact Hw.
+    - intros x0 c c' rid r Hc (_ & _ & _ & H3 & _) Hr. apply IC03_set_response; [apply H3; exact Hr | exact Hc].
+  Qed.
+
+  Lemma dual_inv03 inst v6 k : okk inv03 k -> okk inv03 (dual_exec inst v6 k).
+  Proof.
+    intro Hk.
+    refine (dual_Icw idx IC03 store_ok IC03_rid _ (fun x t => Idx (x_name x) (x_below x) t false) _ _ _ _ inst v6 k Hk).
+    - intros w Hw. exact Hw.
+    - (* the reference query: another type, response unconstrained *)
+      intros x c t (H1 & H2 & Ht & H3 & H4) Htt. unfold IC03. cbn [with_query c_query c_resp c_resp_opt x_name x_ty].
+      unfold set_q0_type. rewrite H2. cbn. split5; try assumption; try reflexivity.
+      + destruct Htt as [-> | ->]; reflexivity.
+      + intros r Hr. split; [apply (H3 r Hr) | discriminate].
+    - intros x c rid Hc. apply IC03_set_response; [|exact Hc].
+      eapply resp_ok_query; [exact Hc | reflexivity | reflexivity | reflexivity].
+    - intros x c co (H1 & H2 & Ht & _ & _) (_ & _ & _ & G3 & G4). unfold IC03. cbn. split5; assumption.
+    - intros w i n Hw. exact Hw.
+  Qed.
+
+  Lemma exec_x_inv03 runsub p x s :
+    (forall rs, okk inv03 (runsub rs)) -> inv03 x s -> inv03 x (fst (exec_x ups runsub p s)).
+  Proof.
+    intros Hsub H. destruct s as [c w]. destruct p; cbn [exec_x]; [| | | | | |apply fallback_inv03; assumption].
     - unfold set_opt. destruct (hosts_reply h (c_query c)) eqn:E; cbn [fst]; [|exact H].
       destruct (hosts_reply_hdr _ _ _ E) as (E1 & E2 & E3). apply set_fresh_inv03; assumption.
     - unfold set_opt. destruct (black_hole_reply v4 v6 (c_query c)) eqn:E; cbn [fst]; [|exact H].
@@ -1343,15 +1651,17 @@ Section C03Inv.
     - unfold set_opt. destruct (arbitrary_reply z (c_query c)) eqn:E; cbn [fst]; [|exact H].
       destruct (arbitrary_reply_hdr _ _ _ E) as (E1 & E2 & E3). apply set_fresh_inv03; assumption.
     - destruct (c_resp c) as [r|] eqn:Er; cbn [fst]; [|exact H].
-      destruct H as (H1 & H2 & H3 & H4 & H5). split5; try assumption.
-      cbn. intros r0 H. inversion H; subst r0. destruct (ttl_apply_header fix_ mn mx r) as (G1 & G2 & G3 & _).
-      destruct (H3 r Er) as (R1 & R2 & n & R3 & R4). unfold resp_ok. rewrite G1, G2, G3. eauto.
+      destruct H as ((H1 & H2 & Ht & H3 & H4) & H5). split; [|exact H5]. cbn [fst snd] in *.
+      unfold IC03. cbn. split5; try assumption.
+      intros r0 H. inversion H; subst r0. destruct (ttl_apply_header fix_ mn mx r) as (G1 & G2 & G3 & _).
+      generalize (H3 r Er). apply resp_ok_hdr; assumption.
     - assert (H' : inv03 x (c, log_up w u (wire (c_query c)))) by (revert H; apply inv03_frame; reflexivity).
       destruct (ups u (wire (c_query c))) as [r|] eqn:Eu; cbn [fst]; [|exact H'].
       destruct (ups_echo _ _ _ Eu) as (E1 & E2 & E3). destruct (wire_fields (c_query c)) as (W1 & W2 & _).
       apply set_fresh_inv03; cbn [fst]; try assumption; [congruence|].
-      rewrite E2, W2. destruct H as (_ & H2 & _). cbn in H2. rewrite H2. reflexivity.
-    - cbn [fst]. destruct H as (H1 & H2 & H3 & H4 & H5). split5; try assumption. cbn. discriminate.
+      rewrite E2, W2. destruct H as ((_ & H2 & _) & _). cbn in H2. rewrite H2. reflexivity.
+    - cbn [fst]. destruct H as ((H1 & H2 & Ht & H3 & H4) & H5). split; [|exact H5].
+      unfold IC03. cbn. split5; try assumption. discriminate.
   Qed.
 
   Lemma reject_x_inv03 rc x s : inv03 x s -> inv03 x (reject_x rc s).
@@ -1361,7 +1671,7 @@ Section C03Inv.
   Proof.
     intros Hk x [c w] Hs. unfold cache_exec.
     destruct (msg_key (c_query c)) as [key|] eqn:Ek; [|apply Hk; exact Hs].
-    pose proof Hs as (S1 & S2 & S3 & S4 & S5). cbn [fst snd] in *.
+    pose proof Hs as ((S1 & S2 & St & S3 & S4) & S5). cbn [fst snd] in *.
     pose proof (msg_key_single _ _ _ Ek S2) as Ekey.
     set (c1 := match get_cached clock key (w_store w inst) (w_next w) with
                | Some r => set_response c (w_next w) (with_id r (m_id (c_query c)))
@@ -1372,7 +1682,7 @@ Section C03Inv.
       unfold get_cached in Eg. destruct (lookup key (w_store w inst)) as [v|] eqn:El; [|discriminate].
       destruct (clock (w_next w)) as [d|]; [|discriminate]. inversion Eg; subst r. clear Eg.
       apply lookup_in in El. destruct (S5 _ _ _ El) as (V1 & a & cc & dd & qu & V2 & V3 & V4).
-      assert (Equ : qu = mkqu (fst x) ty0 cl0).
+      assert (Equ : qu = mkqu (x_name x) (x_ty x) cl0).
       { rewrite V2 in Ekey. apply CacheKey.key_of_inj in Ekey; [|exact V4|split; assumption].
         destruct Ekey as (_ & _ & _ & N1 & N2 & N3). destruct qu; cbn in *. congruence. }
       change (inv03 x (set_fresh (c, w) (with_id (subtract_ttl d v) (m_id (c_query c))))).
@@ -1380,14 +1690,15 @@ Section C03Inv.
     specialize (Hk x _ H1). destruct (k (c1, bump w)) as [[t [c2 w2]] err]. unfold ost in *. cbn [fst snd] in *.
     destruct (c_resp c2) as [r|] eqn:Er; [|exact Hk].
     match goal with |- context [if ?b then _ else _] => destruct b eqn:Eb end; [|exact Hk].
-    destruct Hk as (K1 & K2 & K3 & K4 & K5). split5; try assumption.
+    destruct Hk as ((K1 & K2 & Kt & K3 & K4) & K5). cbn [fst snd] in *. split; [split5; assumption|]. cbn [snd].
     apply andb_true_iff in Eb as [_ Ea]. unfold save. destruct (0 <? save_ttl r); [|exact K5].
     intros i k0 v. unfold put_store. cbn. destruct (i =? inst) eqn:Ei; [|apply K5].
     intros [Hin|Hin]; [|apply N.eqb_eq in Ei; subst; eapply K5; exact Hin].
-    inversion Hin; subst k0 v. destruct (K3 r Er) as (R1 & R2 & n & R3 & R4). cbn. split; [exact R2|].
-    unfold answers_question in Ea. cbn [fst] in K2. rewrite R3, K2 in Ea. apply question_eqb_true in Ea.
-    exists (m_ad (c_query c)), (m_cd (c_query c)), (msg_do (c_query c)), (mkqu (fst x) ty0 cl0).
-    split; [exact Ekey|]. split; [rewrite R3, Ea; reflexivity | split; assumption].
+    inversion Hin; subst k0 v. destruct (K3 r Er) as (R2 & _). cbn. split; [exact R2|].
+    unfold answers_question in Ea. rewrite K2 in Ea.
+    destruct (m_question r) as [|qa [|]] eqn:Eqr; try discriminate. apply question_eqb_true in Ea. subst qa.
+    exists (m_ad (c_query c)), (m_cd (c_query c)), (msg_do (c_query c)), (mkqu (x_name x) (x_ty x) cl0).
+    split; [exact Ekey|]. split; [reflexivity | split; assumption].
   Qed.
 
   Lemma set_q0_name_fields q n qu t :
@@ -1398,42 +1709,45 @@ Section C03Inv.
   Lemma redirect_inv03 f k : okk inv03 k -> okk inv03 (redirect_exec f k).
   Proof.
     intros Hk x [c w] Hs. unfold redirect_exec.
-    pose proof Hs as (S1 & S2 & S3 & S4 & S5). cbn [fst snd] in *. rewrite S2.
-    destruct (negb (qclass (mkqu (fst x) ty0 cl0) =? class_inet)); [apply Hk; exact Hs|].
-    cbn [qname]. destruct (f (fst x)) as [tgt|]; [|apply Hk; exact Hs].
+    pose proof Hs as ((S1 & S2 & St & S3 & S4) & S5). cbn [fst snd] in *. rewrite S2.
+    destruct (negb (qclass (mkqu (x_name x) (x_ty x) cl0) =? class_inet)); [apply Hk; exact Hs|].
+    cbn [qname]. destruct (f (x_name x)) as [tgt|]; [|apply Hk; exact Hs].
     destruct (set_q0_name_fields (c_query c) tgt _ _ S2) as (Q1 & Q2). cbn [qtype qclass] in Q2.
-    assert (H1 : inv03 (tgt, fst x :: snd x) (with_query c (set_q0_name (c_query c) tgt), w)).
-    { unfold inv03. cbn [fst snd with_query c_query c_resp c_resp_opt]. split5; try assumption; try congruence.
-      intros r H. destruct (S3 r H) as (R1 & R2 & n & R3 & R4). split; [exact R1|]. split; [exact R2|].
-      exists n. split; [exact R3 | now right]. }
+    set (x' := Idx tgt (x_name x :: x_below x) (x_ty x) (x_strict x)).
+    assert (H1 : inv03 x' (with_query c (set_q0_name (c_query c) tgt), w)).
+    { split; [|exact S5]. unfold IC03. cbn [fst snd with_query c_query c_resp c_resp_opt x_name x_ty x'].
+      split5; try assumption; try congruence.
+      intros r H. destruct (S3 r H) as (R2 & R). split; [exact R2|]. cbn [x_strict x_name x_below x_ty]. intro Hst.
+      destruct (R Hst) as (R1 & n & R3 & R4). split; [exact R1|]. exists n. split; [exact R3 | now right]. }
     specialize (Hk _ _ H1). destruct (k (with_query c (set_q0_name (c_query c) tgt), w)) as [[t [c2 w2]] err].
-    unfold ost in *. cbn [fst snd] in *. destruct Hk as (K1 & K2 & K3 & K4 & K5).
+    unfold ost in *. cbn [fst snd] in *. destruct Hk as ((K1 & K2 & Kt & K3 & K4) & K5). subst x'. unfold resp_ok in K3. cbn [fst snd x_name x_below x_ty x_strict] in *.
     set (c3 := match c_resp c2 with
                | Some r => with_resp_inplace c2
-                   (with_answer (with_question r (map (rename_question tgt (fst x)) (m_question r)))
-                      (RR (fst x) type_cname class_inet 1 (RName tgt)
-                       :: m_answer (with_question r (map (rename_question tgt (fst x)) (m_question r)))))
+                   (with_answer (with_question r (map (rename_question tgt (x_name x)) (m_question r)))
+                      (RR (x_name x) type_cname class_inet 1 (RName tgt)
+                       :: m_answer (with_question r (map (rename_question tgt (x_name x)) (m_question r)))))
                | None => c2 end).
     assert (C3q : c_query c3 = c_query c2) by (subst c3; destruct (c_resp c2); reflexivity).
     assert (C3o : c_resp_opt c3 = c_resp_opt c2) by (subst c3; destruct (c_resp c2); reflexivity).
-    destruct (set_q0_name_fields (c_query c3) (fst x) _ _ (eq_trans (f_equal m_question C3q) K2)) as (Q3 & Q4).
+    destruct (set_q0_name_fields (c_query c3) (x_name x) _ _ (eq_trans (f_equal m_question C3q) K2)) as (Q3 & Q4).
     cbn [qtype qclass] in Q4.
-    unfold inv03. cbn [fst snd with_query c_query c_resp c_resp_opt]. rewrite Q3, Q4, C3q, C3o.
+    split; [|exact K5]. unfold IC03. cbn [fst snd with_query c_query c_resp c_resp_opt]. rewrite Q3, Q4, C3q, C3o.
     split5; try assumption; try reflexivity.
     intros r H. subst c3. destruct (c_resp c2) as [r2|] eqn:Er; [|rewrite Er in H; discriminate].
-    cbn in H. inversion H; subst r. destruct (K3 r2 Er) as (R1 & R2 & n & R3 & R4).
-    split; [exact R1|]. split; [exact R2|]. cbn.
+    cbn in H. inversion H; subst r. destruct (K3 r2 eq_refl) as (R2 & R). split; [exact R2|]. intro Hst.
+    cbn [x_name x_below x_ty x_strict] in R.
+    destruct (R Hst) as (R1 & n & R3 & R4). split; [exact R1|]. cbn.
     rewrite R3. cbn. unfold rename_question. cbn [qname qtype qclass].
     destruct (name_eqb n tgt) eqn:En.
-    - exists (fst x). split; [reflexivity | now left].
-    - exists n. split; [reflexivity|]. apply name_eqb_false in En. cbn [fst snd] in R4.
+    - exists (x_name x). split; [reflexivity | now left].
+    - exists n. split; [reflexivity|]. apply name_eqb_false in En. cbn [x_name x_below] in R4.
       destruct R4 as [R4|R4]; [congruence | exact R4].
   Qed.
 
   Lemma resp_add_opts_inv03 c w es x : inv03 x (c, w) -> inv03 x (resp_add_opts c es, w).
   Proof.
-    intros (H1 & H2 & H3 & H4 & H5). destruct (resp_add_opts_frame c es) as (_ & _ & E3 & E4 & _).
-    unfold inv03. cbn [fst snd] in *. rewrite E3, E4. split5; try assumption.
+    intros ((H1 & H2 & Ht & H3 & H4) & H5). destruct (resp_add_opts_frame c es) as (_ & _ & E3 & E4 & _).
+    split; [|exact H5]. unfold IC03. cbn [fst snd] in *. rewrite E3, E4. split5; try assumption.
     unfold resp_add_opts. destruct (c_resp_opt c) eqn:Eo; cbn; [exact H4 | rewrite Eo; exact H4].
   Qed.
 
@@ -1477,14 +1791,15 @@ Section C03Inv.
     - apply redirect_inv03; exact Hk.
     - apply ecs_inv03; exact Hk.
     - apply fwdopt_inv03; exact Hk.
+    - apply dual_inv03; exact Hk.
   Qed.
 
-  Lemma entry_inv03 prog x s : inv03 x s -> inv03 x (fst (entry ups clock xp wp mp prog s)).
+  Lemma entry_inv03 d prog x s : inv03 x s -> inv03 x (fst (entry ups clock xp wp mp d prog s)).
   Proof.
-    intro H. unfold entry.
-    pose proof (run_seq_ok state (plug_env ups clock xp wp mp) _ inv03
-                  (fun e => exec_x_inv03 (xp e)) reject_x_inv03 (fun w => wrap_w_inv03 w) prog x s H) as R.
-    destruct (run_seq (plug_env ups clock xp wp mp) prog s) as [[t s'] err]. exact R.
+    apply (entry_ok ups clock xp wp mp idx inv03).
+    - intros runsub Hsub p x0 s0. apply exec_x_inv03. exact Hsub.
+    - exact reject_x_inv03.
+    - exact wrap_w_inv03.
   Qed.
 End C03Inv.
 
@@ -1523,9 +1838,37 @@ Section Meta.
       intro H; inversion H; subst; try reflexivity; apply q_add_opts_meta.
   Qed.
 
-  Lemma exec_x_invM p m s : invM m s -> invM m (fst (exec_x ups p s)).
+  Definition ICM (m : option opt * bool * option addr) (c : ctx) : Prop := meta c = m.
+  Lemma invM_iff m s : invM m s <-> Icw ICM (fun _ => True) m s.
+  Proof. unfold invM, Icw, ICM. tauto. Qed.
+
+  Lemma fallback_invM runsub pr se sb :
+    (forall rs, okk invM (runsub rs)) -> forall x s, invM x s -> invM x (fst (fallback_exec runsub pr se sb s)).
   Proof.
-    unfold invM. intro H. destruct s as [c w]. destruct p; cbn [exec_x]; unfold set_opt.
+    intros Hsub x s H. apply invM_iff.
+    refine (fallback_Icw _ ICM (fun _ => True) _ _ _ runsub pr se sb _ x s _); try (intros; exact I).
+    - intros x0 c rid Hc. exact Hc.
+    - intros x0 c c' rid r Hc _ _. unfold ICM. rewrite set_response_meta. exact Hc.
+    - intro rs. apply (okk_ext invM); [apply invM_iff | apply Hsub].
+    - apply invM_iff. exact H.
+  Qed.
+
+  Lemma dual_invM inst v6 k : okk invM k -> okk invM (dual_exec inst v6 k).
+  Proof.
+    intro Hk. apply (okk_ext (Icw ICM (fun _ => True))); [intros; symmetry; apply invM_iff|].
+    refine (dual_Icw _ ICM (fun _ => True) _ _ (fun x _ => x) _ _ _ _ inst v6 k _); try (intros; exact I).
+    - intros x0 c rid Hc. exact Hc.
+    - intros x0 c t Hc _. exact Hc.
+    - intros x0 c rid Hc. unfold ICM. rewrite set_response_meta. exact Hc.
+    - intros x0 c c' _ Hc'. exact Hc'.
+    - apply (okk_ext invM); [apply invM_iff | exact Hk].
+  Qed.
+
+  Lemma exec_x_invM runsub p m s :
+    (forall rs, okk invM (runsub rs)) -> invM m s -> invM m (fst (exec_x ups runsub p s)).
+  Proof.
+    intros Hsub H. destruct s as [c w]. destruct p; cbn [exec_x]; [| | | | | |apply fallback_invM; assumption];
+      unfold invM in *; unfold set_opt.
     - destruct (hosts_reply h (c_query c)); cbn [fst]; [rewrite set_fresh_meta|]; exact H.
     - destruct (black_hole_reply v4 v6 (c_query c)); cbn [fst]; [rewrite set_fresh_meta|]; exact H.
     - destruct (arbitrary_reply z (c_query c)); cbn [fst]; [rewrite set_fresh_meta|]; exact H.
@@ -1565,14 +1908,15 @@ Section Meta.
       unfold ost in *. cbn [fst snd] in *.
       destruct err; [exact Hk|]. destruct (c_upstream_opt c2) as [uo|]; [|exact Hk].
       destruct (c_resp_opt c2) eqn:Er; cbn [fst snd]; [rewrite resp_add_opts_meta|]; exact Hk.
+    - apply dual_invM; [exact Hk | exact Hs].
   Qed.
 
-  Lemma entry_meta prog s : meta (fst (fst (entry ups clock xp wp mp prog s))) = meta (fst s).
+  Lemma entry_meta d prog s : meta (fst (fst (entry ups clock xp wp mp d prog s))) = meta (fst s).
   Proof.
-    unfold entry.
-    pose proof (run_seq_ok state (plug_env ups clock xp wp mp) _ invM
-                  (fun e => exec_x_invM (xp e)) reject_x_invM (fun w => wrap_w_invM w) prog (meta (fst s)) s eq_refl) as R.
-    destruct (run_seq (plug_env ups clock xp wp mp) prog s) as [[t s'] err]. exact R.
+    apply (entry_ok ups clock xp wp mp _ invM) with (x := meta (fst s)); [| | |reflexivity].
+    - intros runsub Hsub p x s0. apply exec_x_invM. exact Hsub.
+    - exact reject_x_invM.
+    - exact wrap_w_invM.
   Qed.
 End Meta.
 
@@ -1624,13 +1968,14 @@ Section C03.
   Variable mp : N -> matcher.
   Variable truncate : N -> msg -> msg.
   Variable packs : msg -> bool.
+  Variable depth : nat.             (* nesting bound of fallback sub-sequences *)
 
   Hypothesis ups_echo : forall u q r, ups u q = Some r ->
     m_id r = m_id q /\ m_question r = m_question q /\ m_qr r = true.
   Hypothesis trunc_contract : forall size m, trunc_rel m (truncate size m) = true.
 
-  Notation ent prog := (entry ups clock xp wp mp prog).
-  Notation run prog := (handle truncate packs (entry ups clock xp wp mp prog)).
+  Notation ent prog := (entry ups clock xp wp mp depth prog).
+  Notation run prog := (handle truncate packs (entry ups clock xp wp mp depth prog)).
 
   (** malformed queries get no reply and leave the plugins alone *)
   Lemma malformed_dropped prog w q udp ca :
@@ -1653,20 +1998,22 @@ Section C03.
     /\ is_some (c_resp_opt c) = is_some (find_opt (m_extra q)).
   Proof.
     intros Hv Hq [Hty Hcl] Hs He.
-    assert (H0 : inv03 (m_id q) (qtype qu) (qclass qu) (is_some (find_opt (m_extra q))) (qname qu, [])
-                       (new_context q udp ca, w)).
+    set (x := Idx (qname qu) [] (qtype qu) true).
+    assert (H0 : inv03 (m_id q) (qclass qu) (is_some (find_opt (m_extra q))) x (new_context q udp ca, w)).
     { destruct (new_context_fields q udp ca) as (_ & _ & F3 & _ & F5 & F6 & _).
-      unfold inv03. cbn [fst snd]. rewrite F3, F5, F6. split5; try assumption; try reflexivity.
+      split; [|exact Hs]. unfold IC03. cbn [fst snd x x_name x_ty]. rewrite F3, F5, F6.
+      split5; try assumption; try reflexivity.
       - rewrite Hq. destruct qu; reflexivity.
       - discriminate.
       - pose proof (new_context_resp_opt q udp ca) as H. destruct (find_opt (m_extra q)).
         + destruct H as (r & -> & _). reflexivity.
         + rewrite H. reflexivity. }
-    pose proof (entry_inv03 ups clock xp wp mp _ _ _ _ Hty Hcl ups_echo prog _ _ H0) as H1.
-    rewrite He in H1. destruct H1 as (K1 & K2 & K3 & K4 & K5). cbn [fst snd] in *.
+    pose proof (entry_inv03 ups clock xp wp mp _ _ _ Hcl ups_echo depth prog _ _ H0) as H1.
+    rewrite He in H1. destruct H1 as ((K1 & K2 & _ & K3 & K4) & K5). cbn [fst snd x x_name x_below x_ty] in *.
     assert (Eq : [mkqu (qname qu) (qtype qu) (qclass qu)] = m_question q) by (rewrite Hq; destruct qu; reflexivity).
     split; [exact K5|]. split; [exact K1|]. split; [congruence|]. split; [|exact K4].
-    intros r Hr. destruct (K3 r Hr) as (R1 & R2 & n & R3 & [R4|[]]). subst n. repeat split; congruence.
+    intros r Hr. destruct (K3 r Hr) as (R2 & R). destruct (R eq_refl) as (R1 & n & R3 & [R4|[]]). subst n.
+    subst x. cbn [x_name x_ty] in R3. repeat split; congruence.
   Qed.
 
   (** the reply before packing: id, question, QR, RA; and how it relates to
@@ -1688,7 +2035,7 @@ Section C03.
     destruct Hb as (B1 & B2 & B3).
     destruct (finish_reply_fields c (base_reply c err)) as (F1 & F2 & F3 & F4 & _).
     assert (Hudp : c_from_udp c = udp).
-    { pose proof (entry_meta ups clock xp wp mp prog (new_context q udp ca, w)) as Hm. rewrite He in Hm.
+    { pose proof (entry_meta ups clock xp wp mp depth prog (new_context q udp ca, w)) as Hm. rewrite He in Hm.
       cbn [fst] in Hm. destruct (new_context_fields q udp ca) as (_ & F & _).
       unfold meta in Hm. inversion Hm. congruence. }
     cbv zeta. rewrite (reply_msg_truncate truncate c err), pre_reply_eq, Hudp. destruct udp.
@@ -1732,6 +2079,7 @@ Section C03Top.
   Variable mp : N -> matcher.
   Variable truncate : N -> msg -> msg.
   Variable packs : msg -> bool.
+  Variable depth : nat.             (* nesting bound of fallback sub-sequences *)
   Variable plen : msg -> N.          (* length of the packed message *)
 
   Hypothesis ups_echo : forall u q r, ups u q = Some r ->
@@ -1743,8 +2091,8 @@ Section C03Top.
       bytes unless the rcode is an extended one and there is no OPT to carry it *)
   Hypothesis packs_ok : forall m, (m_rcode m < 16 \/ opts_of (m_extra m) <> []) -> plen m <= 65535 -> packs m = true.
 
-  Notation ent prog := (entry ups clock xp wp mp prog).
-  Notation run prog := (handle truncate packs (entry ups clock xp wp mp prog)).
+  Notation ent prog := (entry ups clock xp wp mp depth prog).
+  Notation run prog := (handle truncate packs (entry ups clock xp wp mp depth prog)).
 
   Definition advertised (q : msg) : N := match find_opt (m_extra q) with Some o => o_udp o | None => 0 end.
 
@@ -1759,9 +2107,9 @@ Section C03Top.
   Proof using ups_echo trunc_contract packs_ok.
     clear trunc_len.
     intros Hv Hq Hwf Hs He Hrc Hlen.
-    destruct (reply_shape ups clock xp wp mp truncate ups_echo trunc_contract _ _ _ _ _ _ _ _ _ Hv Hq Hwf Hs He)
+    destruct (reply_shape ups clock xp wp mp truncate depth ups_echo trunc_contract _ _ _ _ _ _ _ _ _ Hv Hq Hwf Hs He)
       as (R1 & R2 & R3 & R4 & R5 & _).
-    destruct (chain_outcome ups clock xp wp mp ups_echo _ _ _ _ _ _ _ _ _ Hv Hq Hwf Hs He) as (S1 & _ & _ & _ & S5).
+    destruct (chain_outcome ups clock xp wp mp depth ups_echo _ _ _ _ _ _ _ _ _ Hv Hq Hwf Hs He) as (S1 & _ & _ & _ & S5).
     exists (reply_msg truncate c err). unfold handle. rewrite Hv, He.
     assert (Hp : packs (reply_msg truncate c err) = true).
     { apply packs_ok; [|exact Hlen].
@@ -1785,7 +2133,7 @@ Section C03Top.
   Proof using ups_echo trunc_contract.
     clear trunc_len packs_ok.
     intros Hv Hq Hwf Hs He.
-    destruct (reply_shape ups clock xp wp mp truncate ups_echo trunc_contract _ _ _ _ _ _ _ _ _ Hv Hq Hwf Hs He)
+    destruct (reply_shape ups clock xp wp mp truncate depth ups_echo trunc_contract _ _ _ _ _ _ _ _ _ Hv Hq Hwf Hs He)
       as (_ & _ & _ & _ & R5 & _).
     destruct (trunc_rel_parts _ _ R5) as (_ & _ & _ & T4 & _ & _ & T7 & _ & T9 & T10).
     destruct (finish_reply_fields c (base_reply c (Some e))) as (_ & _ & _ & _ & F5 & F6 & F7 & _ & _ & F10).
@@ -1803,7 +2151,7 @@ Section C03Top.
   Proof using ups_echo trunc_contract.
     clear trunc_len packs_ok.
     intros Hv Hq Hwf Hs He Hn.
-    destruct (reply_shape ups clock xp wp mp truncate ups_echo trunc_contract _ _ _ _ _ _ _ _ _ Hv Hq Hwf Hs He)
+    destruct (reply_shape ups clock xp wp mp truncate depth ups_echo trunc_contract _ _ _ _ _ _ _ _ _ Hv Hq Hwf Hs He)
       as (_ & _ & _ & _ & R5 & _).
     destruct (trunc_rel_parts _ _ R5) as (_ & _ & _ & T4 & _ & _ & T7 & _ & T9 & T10).
     destruct (finish_reply_fields c (base_reply c None)) as (_ & _ & _ & _ & F5 & F6 & F7 & _ & _ & F10).
@@ -1829,7 +2177,7 @@ Section C03Top.
   Proof using ups_echo trunc_contract.
     clear trunc_len packs_ok.
     intros Hv Hq Hwf Hs He Ha.
-    destruct (reply_shape ups clock xp wp mp truncate ups_echo trunc_contract _ _ _ _ _ _ _ _ _ Hv Hq Hwf Hs He)
+    destruct (reply_shape ups clock xp wp mp truncate depth ups_echo trunc_contract _ _ _ _ _ _ _ _ _ Hv Hq Hwf Hs He)
       as (_ & _ & _ & _ & R5 & R6).
     unfold base_reply, chain_result_of in R5, R6. rewrite Ha in R5, R6.
     destruct (trunc_rel_parts _ _ R5) as (_ & _ & _ & T4 & _ & T6 & _).
@@ -1843,7 +2191,7 @@ Section C03Top.
     plen (reply_msg truncate c err) <= N.max 512 (advertised q).
   Proof using trunc_len.
     clear ups_echo trunc_contract packs_ok packs.
-    intro He. pose proof (entry_meta ups clock xp wp mp prog (new_context q true ca, w)) as Hm.
+    intro He. pose proof (entry_meta ups clock xp wp mp depth prog (new_context q true ca, w)) as Hm.
     rewrite He in Hm. cbn [fst] in Hm. destruct (new_context_fields q true ca) as (_ & F2 & _).
     unfold meta in Hm. inversion Hm as [[M1 M2 M3]]. rewrite new_context_client_opt in M1.
     rewrite (reply_msg_truncate truncate c err), M2, F2.
@@ -1860,7 +2208,7 @@ Section C03Top.
   Proof using ups_echo trunc_contract.
     clear trunc_len packs_ok.
     intros Hv Hq Hwf Hs He.
-    destruct (reply_shape ups clock xp wp mp truncate ups_echo trunc_contract _ _ _ _ _ _ _ _ _ Hv Hq Hwf Hs He)
+    destruct (reply_shape ups clock xp wp mp truncate depth ups_echo trunc_contract _ _ _ _ _ _ _ _ _ Hv Hq Hwf Hs He)
       as (_ & _ & _ & _ & R5 & _).
     destruct (trunc_rel_parts _ _ R5) as (_ & _ & _ & _ & _ & _ & _ & T8 & _).
     destruct (finish_reply_fields c (base_reply c err)) as (_ & _ & _ & _ & _ & _ & _ & F8 & _).
@@ -1875,9 +2223,74 @@ Section C03Top.
     clear trunc_contract trunc_len packs_ok.
     intros Hv Hq Hwf Hs. unfold handle. rewrite Hv.
     destruct (ent prog (new_context q udp ca, w)) as [[c w'] err] eqn:He.
-    destruct (chain_outcome ups clock xp wp mp ups_echo _ _ _ _ _ _ _ _ _ Hv Hq Hwf Hs He) as (S1 & _). exact S1.
+    destruct (chain_outcome ups clock xp wp mp depth ups_echo _ _ _ _ _ _ _ _ _ Hv Hq Hwf Hs He) as (S1 & _). exact S1.
   Qed.
 End C03Top.
 
 Lemma store_ok_empty : store_ok empty_world.
 Proof. intros i k v []. Qed.
+
+(** * Context.Copy and the plugins that use it *)
+
+(** A copy agrees with the original on everything a plugin can read; being a
+    value of its own, nothing written to it later reaches the original (and
+    vice versa) — which is what Judge.C15's CCopy cases check of
+    Context.Copy / CopyTo on the real structure, pointer by pointer. *)
+Lemma copy_isolated c w :
+  let c' := fst (ctx_copy (c, w)) in
+  c_query c' = c_query c /\ c_client_opt c' = c_client_opt c /\ c_resp c' = c_resp c
+  /\ c_resp_opt c' = c_resp_opt c /\ c_upstream_opt c' = c_upstream_opt c
+  /\ c_from_udp c' = c_from_udp c /\ c_client_addr c' = c_client_addr c.
+Proof. cbn. repeat split. Qed.
+
+(** fallback hands back a response and nothing else: whatever its branches
+    forwarded into THEIR response OPTs stays there. *)
+Lemma fallback_keeps_resp_opt runsub pr se sb c w :
+  c_resp_opt (fst (fst (fallback_exec runsub pr se sb (c, w)))) = c_resp_opt c
+  /\ c_query (fst (fst (fallback_exec runsub pr se sb (c, w)))) = c_query c.
+Proof.
+  unfold fallback_exec. destruct (runsub pr (ctx_copy (c, w))) as [[tp [cp w1]] errp].
+  set (rp := match errp with
+             | Some _ => None
+             | None => match c_resp cp with Some r => Some (c_rid cp, r) | None => None end
+             end). clearbody rp.
+  assert (E : forall rid r, c_resp_opt (set_response c rid r) = c_resp_opt c /\ c_query (set_response c rid r) = c_query c).
+  { intros rid r. destruct (set_response_fields c rid r) as (E1 & _ & _ & E4 & _). auto. }
+  destruct (sb || match rp with Some _ => false | None => true end).
+  - destruct (runsub se (ctx_copy (c, w1))) as [[ts [cs w2]] errs].
+    destruct rp as [[rid r]|]; [apply E|].
+    destruct errs; [split; reflexivity|]. destruct (c_resp cs); [apply E | split; reflexivity].
+  - destruct rp as [[rid r]|]; [apply E | split; reflexivity].
+Qed.
+
+(** dual_selector ends with the context of the sub-run of the ORIGINAL query
+    (when it lets it pass) or with the context it was given plus an empty
+    reply (when it blocks): the response OPT never holds anything the
+    reference query's sub-run put into its copy. *)
+Lemma dual_resp_opt_adopted inst v6 k c w :
+  let out := dual_exec inst v6 k (c, w) in
+  c_resp_opt (fst (ost out)) = c_resp_opt c
+  \/ (exists s, c_resp_opt (fst (ost out)) = c_resp_opt (fst (ost (k s)))
+                /\ c_query (fst s) = c_query c /\ c_resp_opt (fst s) = c_resp_opt c).
+Proof.
+  cbv zeta. unfold dual_exec.
+  destruct (m_question (c_query c)) as [|qu [|]]; try solve [right; exists (c, w); repeat split].
+  destruct (negb ((qtype qu =? type_a) || (qtype qu =? type_aaaa))); [right; exists (c, w); repeat split|].
+  destruct (qtype qu =? (if v6 then type_aaaa else type_a)).
+  - right. exists (c, w). destruct (k (c, w)) as [[t [c2 w2]] err]. destruct err; cbn; repeat split.
+  - destruct (existsb (name_eqb (qname qu)) (w_pref w inst)).
+    + left. unfold ost, set_fresh. cbn [fst snd].
+      destruct (set_response_fields c (w_next w) (gen_empty_reply (c_query c))) as (_ & _ & _ & E4 & _). exact E4.
+    + destruct (k (with_query (fst (ctx_copy (c, w))) (set_q0_type (c_query (fst (ctx_copy (c, w)))) (if v6 then type_aaaa else type_a)),
+                   snd (ctx_copy (c, w)))) as [[t1 [cr w1]] errr].
+      set (block := match errr with
+                    | Some _ => false
+                    | None => match c_resp cr with Some r => msg_ans_has_rr r (if v6 then type_aaaa else type_a) | None => false end
+                    end).
+      set (w1' := if block then add_pref w1 inst (qname qu) else w1).
+      destruct block.
+      * left. destruct (k (ctx_copy (c, w1'))) as [[t2 [co w2]] erro]. unfold ost, set_fresh. cbn [fst snd].
+        destruct (set_response_fields c (w_next w2) (gen_empty_reply (c_query c))) as (_ & _ & _ & E4 & _). exact E4.
+      * right. exists (ctx_copy (c, w1')). destruct (k (ctx_copy (c, w1'))) as [[t2 [co w2]] erro].
+        unfold ost. cbn. repeat split.
+Qed.
